@@ -2220,4 +2220,27 @@ example : (tsMergeGuard .chGood Unique.real (rowMin 5) (rowMin 2)).min = 5 ∧ (
     (tsMerge .chGood Unique.real (rowMin 5) (rowMin 2)).min = 2 ∧ (tsMerge .chGood Unique.real (rowMin 2) (rowMin 5)).min = 2 := by decide
 
 
+open SH.Unique SH.UTable
+
+/-! ## Part 9 — the second pass of rehash is necessary whatever the last slot holds (seeded change C04-r6-1) -/
+
+/-- [14, 0, 0, 13]: 13 and 14 both have home slot 3; 14 wrapped to slot 0; well-formed -/
+example : (tabOf .full [13, 14]).buf = #[14, 0, 0, 13] ∧ WF toyT (tabOf .full [13, 14]) :=
+  ⟨by decide, (wfb_decides_WF toyT _ (by decide)).mp (by decide)⟩
+
+/-- thinning to skipDegree 1 drops the odd value 13 (the blocker in the last slot). The real rehash then moves 14 into its
+    home slot (`table_rehash_restores_WF`): [0, 0, 0, 14], well-formed -/
+example : (UTable.rehash toyT { tabOf .full [13, 14] with k := 1 }).buf = #[0, 0, 0, 14] ∧
+    WF toyT (UTable.rehash toyT { tabOf .full [13, 14] with k := 1 }) :=
+  ⟨by decide, (wfb_decides_WF toyT _ (by decide)).mp (by decide)⟩
+
+/-- with the second pass guarded by "last slot occupied" the last slot is free exactly because the blocker was thinned away:
+    14 stays in slot 0 behind its empty home slot — not well-formed, the probe misses it, and merging 14 again stores it twice -/
+example : (rehashLastSlotGuard toyT { tabOf .full [13, 14] with k := 1 }).buf = #[14, 0, 0, 0] ∧
+    ¬ WF toyT (rehashLastSlotGuard toyT { tabOf .full [13, 14] with k := 1 }) ∧
+    (UTable.insertImpl toyT (rehashLastSlotGuard toyT { tabOf .full [13, 14] with k := 1 }) 14).cnt = 2 ∧
+    (UTable.insertImpl toyT (UTable.rehash toyT { tabOf .full [13, 14] with k := 1 }) 14).cnt = 1 :=
+  ⟨by decide, fun w => absurd ((wfb_decides_WF toyT _ (by decide)).mpr w) (by decide), by decide, by decide⟩
+
+
 end SH.C04
